@@ -73,6 +73,9 @@ struct Case {
     /// the signal becomes ready exactly when the listener has yielded the new connection (so the
     /// serve future sees the accept and the signal in the same poll, whatever select!'s order)
     signal_on_accept: bool,
+    /// instead of firing the shutdown signal, the listener's incoming stream ends (the serve
+    /// future was started with a signal that never fires): serving must still drain
+    end_incoming: bool,
     max_age_ms: Option<u64>,
 }
 
@@ -119,6 +122,7 @@ fn body(c: &Case, ch: &Chooser) -> Outcome {
         }
         let server = EchoServer::new(Gated { gates: gates.clone(), invoked: invoked.clone() });
         let (sig_tx, sig_rx) = tokio::sync::oneshot::channel::<()>();
+        let switch_outer = Arc::new(vnet::ListenerSwitch::default());
         let serve_done = Arc::new(AtomicBool::new(false));
         let open_cell_outer: Arc<Mutex<Option<usize>>> = Arc::new(Mutex::new(None));
         let serve_res: Arc<Mutex<Option<Result<(), String>>>> = Arc::new(Mutex::new(None));
@@ -136,7 +140,8 @@ fn body(c: &Case, ch: &Chooser) -> Outcome {
             let on_accept = c.signal_on_accept;
             let mut yielded = 0usize;
             use tokio_stream::StreamExt;
-            let incoming = vnet::incoming(rx).map(move |io| {
+            let switch = switch_outer.clone();
+            let incoming = vnet::switched(Box::pin(vnet::incoming(rx)), switch).map(move |io| {
                 yielded += 1;
                 if on_accept && yielded > initial_conns {
                     af1.0.store(true, Ordering::SeqCst);
@@ -250,7 +255,10 @@ fn body(c: &Case, ch: &Chooser) -> Outcome {
                         }
                     }
                     if let Some(tx) = signal.take() {
-                        if c.signal_on_accept {
+                        if c.end_incoming {
+                            sig_keep = Some(tx); // the signal never fires; the listener ends instead
+                            switch_outer.close();
+                        } else if c.signal_on_accept {
                             sig_keep = Some(tx); // the signal fires by itself when the connection is yielded
                         } else {
                             let _ = tx.send(());
@@ -430,34 +438,45 @@ fn cases(tier: Tier) -> Vec<Case> {
     }
     if tier == Tier::Thorough {
         call_sets.push((vec![(Shape::Unary, 0), (Shape::ServerStream, 1), (Shape::Unary, 1)], 2));
+        call_sets.push((vec![(Shape::Unary, 0), (Shape::Unary, 0), (Shape::Unary, 1)], 2));
+        call_sets.push((vec![(Shape::Unary, 0), (Shape::Unary, 0), (Shape::ServerStream, 0)], 1));
+        call_sets.push((vec![(Shape::ServerStream, 0), (Shape::ServerStream, 1)], 2));
     }
     // no call at all: the only connection is the one arriving together with the signal (and an
     // idle-connection variant)
     for conns in [0usize, 1] {
         for seed in 0..8 {
-            out.push(Case { calls: vec![], conns, chop: 0, seed, offer_after: true, same_step: true, signal_on_accept: false, max_age_ms: None });
+            out.push(Case { calls: vec![], conns, chop: 0, seed, offer_after: true, same_step: true, signal_on_accept: false, end_incoming: false, max_age_ms: None });
         }
-        out.push(Case { calls: vec![], conns, chop: 0, seed: 0, offer_after: true, same_step: false, signal_on_accept: false, max_age_ms: None });
+        out.push(Case { calls: vec![], conns, chop: 0, seed: 0, offer_after: true, same_step: false, signal_on_accept: false, end_incoming: false, max_age_ms: None });
         for chop in [0usize, 2] {
-            out.push(Case { calls: vec![], conns, chop, seed: 0, offer_after: true, same_step: true, signal_on_accept: true, max_age_ms: None });
+            out.push(Case { calls: vec![], conns, chop, seed: 0, offer_after: true, same_step: true, signal_on_accept: true, end_incoming: false, max_age_ms: None });
         }
     }
     for s in [Shape::Unary, Shape::ServerStream] {
-        out.push(Case { calls: vec![(s, 0)], conns: 1, chop: 0, seed: 0, offer_after: true, same_step: true, signal_on_accept: true, max_age_ms: None });
+        out.push(Case { calls: vec![(s, 0)], conns: 1, chop: 0, seed: 0, offer_after: true, same_step: true, signal_on_accept: true, end_incoming: false, max_age_ms: None });
+        // the listener ends while calls are in flight
+        out.push(Case { calls: vec![(s, 0)], conns: 1, chop: 0, seed: 0, offer_after: false, same_step: false, signal_on_accept: false, end_incoming: true, max_age_ms: None });
+        out.push(Case { calls: vec![(s, 0), (Shape::Unary, 1)], conns: 2, chop: 2, seed: 0, offer_after: false, same_step: false, signal_on_accept: false, end_incoming: true, max_age_ms: None });
+        // max_connection_age elapsing before / after the signal
+        for age in [2u64, 5] {
+            out.push(Case { calls: vec![(s, 0)], conns: 1, chop: 0, seed: 1, offer_after: false, same_step: false, signal_on_accept: false, end_incoming: false, max_age_ms: Some(age) });
+        }
     }
+    out.push(Case { calls: vec![(Shape::Unary, 0), (Shape::ServerStream, 0)], conns: 1, chop: 0, seed: 1, offer_after: false, same_step: false, signal_on_accept: false, end_incoming: false, max_age_ms: Some(2) });
     for (i, (calls, conns)) in call_sets.iter().enumerate() {
         let chops: Vec<usize> = if tier == Tier::Thorough { vec![0, 2, 3] } else { vec![[0, 2, 3][i % 3]] };
         for chop in chops {
-            out.push(Case { calls: calls.clone(), conns: *conns, chop, seed: 0, offer_after: true, same_step: false, signal_on_accept: false, max_age_ms: None });
+            out.push(Case { calls: calls.clone(), conns: *conns, chop, seed: 0, offer_after: true, same_step: false, signal_on_accept: false, end_incoming: false, max_age_ms: None });
             if calls.len() == 1 || tier == Tier::Thorough {
                 for seed in 0..4 {
-                    out.push(Case { calls: calls.clone(), conns: *conns, chop, seed, offer_after: true, same_step: true, signal_on_accept: false, max_age_ms: None });
+                    out.push(Case { calls: calls.clone(), conns: *conns, chop, seed, offer_after: true, same_step: true, signal_on_accept: false, end_incoming: false, max_age_ms: None });
                 }
             }
         }
         if tier == Tier::Thorough && calls.len() <= 2 {
             for age in [2u64, 6] {
-                out.push(Case { calls: calls.clone(), conns: *conns, chop: 0, seed: 1, offer_after: false, same_step: false, signal_on_accept: false, max_age_ms: Some(age) });
+                out.push(Case { calls: calls.clone(), conns: *conns, chop: 0, seed: 1, offer_after: false, same_step: false, signal_on_accept: false, end_incoming: false, max_age_ms: Some(age) });
             }
         }
     }
@@ -468,9 +487,9 @@ pub fn property(tier: Tier) -> Property {
     let sec = Section::new(
         "shutdown-schedules",
         Config { hang_secs: 60, ..Default::default() },
-        "cases: 1..2 (thorough 3) concurrent calls (unary: 1 gated handler step; server-streaming: message, message, end = 3 gated steps) on 1..2 connections x pipe fragmentation pattern x {new connection offered after the signal has settled | in the same step as the signal under 4 RNG seeds} (thorough: max_connection_age elapsing before/after the signal); environment: the explorer enumerates EVERY interleaving of {start call k, release next handler step of call k, fire the shutdown signal, offer a new connection} consistent with causality (choices cost nothing), each event followed by quiescence in virtual time, on the real Server::serve_with_incoming_shutdown over in-memory pipes; RefShutdown: every call whose handler was invoked ends with its full outcome; no call hangs; the serve future is unresolved while an accepted call has steps outstanding (and before any signal), resolves after the last one finishes and the clients are gone, never with Err; a connection offered after signal+quiescence never reaches a handler and does not hang once serving ended. Non-trivial = the signal landed strictly between a call's start and its last handler step.",
+        "cases: 1..2 (thorough 3) concurrent calls (unary: 1 gated handler step; server-streaming: message, message, end = 3 gated steps) on 1..2 connections x pipe fragmentation pattern x {new connection offered after the signal has settled | in the same step as the signal under 4 RNG seeds} ; the listener's incoming stream ending instead of the signal firing; max_connection_age elapsing before/after the signal; environment: the explorer enumerates EVERY interleaving of {start call k, release next handler step of call k, fire the shutdown signal, offer a new connection} consistent with causality (choices cost nothing), each event followed by quiescence in virtual time, on the real Server::serve_with_incoming_shutdown over in-memory pipes; RefShutdown: every call whose handler was invoked ends with its full outcome; no call hangs; the serve future is unresolved while an accepted call has steps outstanding (and before any signal), resolves after the last one finishes and the clients are gone, never with Err; a connection offered after signal+quiescence never reaches a handler and does not hang once serving ended. Non-trivial = the signal landed strictly between a call's start and its last handler step.",
         cases(tier),
-        |c: &Case| format!("calls={:?} conns={} chop={} seed={} offer_after={} same_step={} signal_on_accept={} max_age={:?}", c.calls, c.conns, c.chop, c.seed, c.offer_after, c.same_step, c.signal_on_accept, c.max_age_ms),
+        |c: &Case| format!("calls={:?} conns={} chop={} seed={} offer_after={} same_step={} signal_on_accept={} end_incoming={} max_age={:?}", c.calls, c.conns, c.chop, c.seed, c.offer_after, c.same_step, c.signal_on_accept, c.end_incoming, c.max_age_ms),
         body,
     )
     .mins(100, 10, 20);
